@@ -160,13 +160,21 @@ pub fn relabel_with<'a, H: HashFunction, D: SetDataset>(
                 "RDFC-1.0 does not support blank node as predicate".to_string(),
             ));
         }
-        for component in iter_spog(quad.spog()) {
+        for (i, component) in iter_spog(quad.spog()).enumerate() {
             if component.is_triple() || component.is_variable() {
                 return Err(C14nError::Unsupported(
                     "RDFC-1.0 does not support variables nor quoted triples".to_string(),
                 ));
             }
             if let Some(bnid) = component.bnode_id() {
+                // RDFC-1.0 step 2.1 references the quad once per blank node,
+                // even when that blank node occurs in several positions of the quad
+                if iter_spog(quad.spog())
+                    .take(i)
+                    .any(|c| c.bnode_id().is_some_and(|b| b == bnid))
+                {
+                    continue;
+                }
                 state
                     .b2q
                     .entry(Rc::from(bnid.as_str()))
